@@ -272,9 +272,15 @@ def obspy_clause(cl, rng, n, replay):
                         t2.data = t2.data.astype(np.float32)
                         obspy.Stream([t2]).write(fn, format="SAC", byteorder=({"sac_little": 0, "sac_big": 1}.get(fmt, (j + k) % 2)))
                         src.append(fn)
+                as_stream = j % 3 == 1
+                if as_stream:
+                    # the binary formats may also be handed over as in-memory streams (io.BytesIO), one per file
+                    import io
+                    load = lambda name: io.BytesIO(open(name, "rb").read())
+                    src = load(src) if isinstance(src, str) else [load(x) for x in src]
                 r = hvsrpy.read_single(src, degrees_from_north=explicit)
             except Exception as ex:
-                cl.fail("hvsrpy.data_wrangler.read_single", f"{fmt}: {type(ex).__name__}: {ex}", signature=f"obspy:{fmt}:exception", order=order)
+                cl.fail("hvsrpy.data_wrangler.read_single", f"{fmt}{' (in-memory streams)' if j % 3 == 1 else ''}: {type(ex).__name__}: {ex}", signature=f"obspy:{fmt}:exception", order=order)
                 return
             cl.case((j, fmt, chans, order, explicit))
             want = {c: data[c].astype(np.float32).astype(np.float64) if fmt.startswith("sac") else data[c].astype(np.float64) for c in chans}
